@@ -1103,7 +1103,7 @@ func buildHistory(dir string, r *rand.Rand, count func(string)) *histRepo {
 	tree["pkg/a/asset.go"] = "var asset = \"" + strings.Repeat("0123456789abcdef", 4400) + "\"\n" + g.file(9)
 	all := func(string) bool { return true }
 	const t0 = 1700000000
-	topos := []string{"linear", "linear", "linear-same-second", "pr-feature-older", "pr-feature-older", "pr-feature-newer", "pr-same-second", "pr-forked-after-old", "diverged"}
+	topos := []string{"linear", "linear-skew", "linear-same-second", "pr-feature-older", "pr-feature-older", "pr-feature-newer", "pr-same-second", "pr-forked-after-old", "diverged"}
 	h.topo = topos[r.Intn(len(topos))]
 	count("topology:" + h.topo)
 	same := strings.HasSuffix(h.topo, "same-second")
@@ -1129,6 +1129,9 @@ func buildHistory(dir string, r *rand.Rand, count func(string)) *histRepo {
 		return rev, nil
 	}
 	next := func() int64 { step += 100; return date(step) }
+	if h.topo == "linear-skew" { // committer dates run backwards: every ancestor of the old revision is dated after it
+		next = func() int64 { step -= 100; return date(step) }
+	}
 	var err error
 	switch {
 	case strings.HasPrefix(h.topo, "linear"):
@@ -1390,8 +1393,13 @@ func buildExactHistory(dir string, r *rand.Rand, count func(string)) *histRepo {
 		return proj.Commit(dir, tree, date, "c")
 	}
 	var err error
-	h.topo = []string{"linear", "linear", "linear", "pr-older", "pr-newer", "merged-old", "merged-old", "pr-conflict", "diverged"}[r.Intn(9)]
+	h.topo = []string{"linear", "linear", "linear-skew", "pr-older", "pr-newer", "merged-old", "merged-old", "pr-conflict", "diverged"}[r.Intn(9)]
 	count("topology:" + h.topo)
+	if h.topo == "linear-skew" {
+		// committer dates run backwards (clock skew, rebased history): ancestors of the old revision
+		// carry later dates than the old revision itself
+		next = func() int64 { step -= 60; return t0 + step }
+	}
 	const conflictFile = "pkg/a/conflict.go"
 	if h.topo == "pr-conflict" {
 		// both sides rewrite the first line of this file; the merge is concluded by hand with a
@@ -1406,7 +1414,7 @@ func buildExactHistory(dir string, r *rand.Rand, count func(string)) *histRepo {
 		ls[0] = fresh()
 		return strings.Join(ls, "\n") + "\n"
 	}
-	if h.topo == "linear" {
+	if strings.HasPrefix(h.topo, "linear") {
 		h.oldRev, _ = proj.Git(dir, 0, "rev-parse", "HEAD")
 		for i := r.Intn(3); i > 0; i-- {
 			if h.oldRev, err = commit(all, next()); err != nil {
